@@ -2,15 +2,16 @@
 # Runs every seeded breaking change under /verif/seeded through tools/seedtest.sh (quick tier of
 # the property it breaks, or the checks listed in meta.json "expected_checks") and prints a table.
 # Exit 0 iff every seed is caught by at least the checks it is expected to be caught by.
+#   SELFTEST_JOBS=<n>  seeds tested at the same time (default 4)
 cd "$(dirname "$0")/.." || exit 2
-fail=0
-for d in seeded/*/; do
-  [ -f "$d/meta.json" ] || continue
+one() {
+  d="$1"
+  [ -f "$d/meta.json" ] || return 0
   exp=$(python3 -c 'import json,sys; m=json.load(open(sys.argv[1])); print(" ".join(m.get("expected_checks",[m["property"]])))' "$d/meta.json")
   tier=$(python3 -c 'import json,sys; m=json.load(open(sys.argv[1])); print(m.get("tier_needed","quick"))' "$d/meta.json")
   out=$(SEED_TIER=$tier tools/seedtest.sh "$d" $exp 2>&1); rc=$?
-  caught=$(echo "$out" | grep -c "exit=1")
   echo "$(basename $d): rc=$rc $(echo "$out" | grep '^check' | tr '\n' ';')"
-  [ $rc -eq 0 ] || fail=1
-done
-exit $fail
+}
+export -f one
+ls -d seeded/*/ | xargs -P "${SELFTEST_JOBS:-4}" -I{} bash -c 'one {}' | tee /dev/stderr | grep -v ": rc=0 " | grep -q . && exit 1
+exit 0
